@@ -264,6 +264,22 @@ def run_check(prop, tier):
             rule="stage M: TLC exhaustive over the listed configurations (states/transitions); stage G: one behaviour per edge "
                  "of the bounded-hostility graphs plus -simulate behaviours; every behaviour is replayed into a real "
                  "ship.ShipConnection and judged by the TLC monitor pass")
+        if prop == "C08":
+            # mDNS side: awkward resolver inputs (MdnsBadGen.tla, MonBad.tla)
+            import check_bad
+            br = check_bad.collect("C08", tier)
+            violations += br["violations"]
+            known_hits.update(br["known_hits"])
+            notes += br["notes"]
+            coverage["mdns_resolver_inputs"] = br["coverage"]
+            coverage["traces_validated_against_impl"] += br["coverage"]["rows"]
+            # websocket side: frames a SHIP peer must never send (WsGen.tla peerBad rows, MonWs.tla)
+            wr = check_bad.collect_ws("C08", tier)
+            violations += wr["violations"]
+            known_hits.update(wr["known_hits"])
+            notes += wr["notes"]
+            coverage["websocket_odd_frames"] = wr["coverage"]
+            coverage["traces_validated_against_impl"] += wr["coverage"]["rows"]
         if prop == "C11":
             # hub level: the end of a connection object and the registry / notifications (HubApi.tla, MonHub.tla)
             import check_hub
